@@ -389,7 +389,7 @@ class C10(Check):
                 if res["ok"]:
                     srcs = sorted(w.rel(t.source_file_path) for t in res["direct"] if str(t) == tw["def"])
                     out.fail("C10.complete", "%s: files %s and %s encode the same name and version; the call returned %d composite(s) for them (%s)" % (
-                        where, uni.file_of(tw["def"]), tw["path"], len(srcs), srcs), "twin-silently-deduplicated" if tw["equal"] else "twin-different-bodies-accepted")
+                        where, uni.file_of(tw["def"]), tw["path"], len(srcs), srcs), "twin-silently-deduplicated")
                 elif classify_exc(res["exc"]) != "IDE":
                     out.fail("C10.complete", "%s: twin files: raised %s" % (where, type(res["exc"]).__name__), "twin-crash:" + type(res["exc"]).__name__)
                 return
